@@ -261,7 +261,7 @@ def mini_filters(coll):
 def plan(tier, seed, scale):
     K = 16
     tasks = [{"name": "mini-%d" % i, "kind": "mini", "i": i, "k": 4} for i in range(4)]
-    total = int((6000 if tier == "quick" else 150000) * scale)
+    total = int((16000 if tier == "quick" else 300000) * scale)
     for i in range(K):
         tasks.append({"name": "rand-%d" % i, "kind": "rand", "n": max(total // K, 5), "shard": i,
                       "depth": 2 if tier == "quick" else 3})
